@@ -62,6 +62,15 @@ def gconv(api, rng, alpha, nonempty_prefix):
             ))
         if spec.is_unique(recs) and not any(spec.self_clash(r) for r in recs) and len({x for r in recs for x in spec.all_p(r)}) == sum(len(spec.all_p(r)) for r in recs) \
                 and len({x for r in recs for x in spec.all_u(r)}) == sum(len(spec.all_u(r)) for r in recs):
+            if rng.random() < 0.06:
+                # a record may list one of its own synonyms twice (one claim, not a clash: the constructor takes it, and
+                # what is written must load again - seed C14-O)
+                i = rng.randrange(len(recs))
+                r = recs[i]
+                if r.psyn and rng.random() < 0.5:
+                    recs[i] = r._replace(psyn=r.psyn + (rng.choice(r.psyn),))
+                elif r.usyn:
+                    recs[i] = r._replace(usyn=r.usyn + (rng.choice(r.usyn),))
             if rng.random() < 0.35:
                 # a converter with a past: bare records that acquired their synonyms through merges / chain
                 o = call(gen.build, api, recs, ":", rng, "grown-by-merge")
@@ -72,6 +81,13 @@ def gconv(api, rng, alpha, nonempty_prefix):
                         if o2[0] == "ret":
                             c = o2[1]
                     return c, list(spec.snapshot(c))
+                continue
+            if rng.random() < 0.25:
+                # ... or registered record by record on an empty converter ("pass an empty list if you plan to build the
+                # converter incrementally")
+                o = call(gen.build, api, recs, ":", rng, "incremental")
+                if o[0] == "ret":
+                    return o[1][0], list(spec.snapshot(o[1][0]))
                 continue
             o = call(api.Converter, [gen.mk_record(api, r) for r in recs])
             if o[0] == "ret":
